@@ -87,6 +87,7 @@ func constVal(info *types.Info, e ast.Expr) string {
 
 func c08(r *core.Report) {
 	lookupFolding(r, "C08.lookup")
+	c08AsResponse(r)
 	p := r.Prog
 	info := p.Pkg("openapi3filter").TypesInfo
 	oinfo := p.Pkg("openapi3").TypesInfo
@@ -434,4 +435,86 @@ func checkErrPropagates(r *core.Report, na *core.NilAnalysis, ff *core.FuncFacts
 		}
 	}
 	r.Check(good, key, p.Pos(ifs.Pos()), "error returned", "the error of "+core.ExprStr(call.Fun)+" is not returned")
+}
+
+// c08AsResponse: everything that is checked against a schema on the response side is checked "as a
+// response" (write-only properties forbidden and not required, read-only ones allowed): the body
+// and the headers alike.
+func c08AsResponse(r *core.Report) {
+	p := r.Prog
+	info := p.Pkg("openapi3filter").TypesInfo
+	r.RunRule("C08.asresponse", "headers and body are read as a response: every VisitJSON call in ValidateResponse and the functions it calls within validate_response.go is given the option VisitAsResponse() — in the argument list itself, or through a variable every assignment of which appends it", 2, func() {
+		seen := map[*ast.FuncDecl]bool{}
+		var work []*ast.FuncDecl
+		start := p.DeclOf("openapi3filter", "ValidateResponse")
+		work = append(work, start)
+		file := p.Fset.Position(start.Pos()).Filename
+		for len(work) > 0 {
+			d := work[0]
+			work = work[1:]
+			if seen[d] {
+				continue
+			}
+			seen[d] = true
+			ff := core.NewFuncFacts(p, info, d)
+			k := 0
+			ast.Inspect(d.Body, func(n ast.Node) bool {
+				c, ok := n.(*ast.CallExpr)
+				if !ok {
+					return true
+				}
+				if f := core.CalleeOf(info, c); f != nil {
+					if f.Pkg() != nil && core.InRepo(f.Pkg()) && f.Pkg().Name() == "openapi3filter" {
+						if fd := p.Decl(f); fd != nil && fd.Body != nil && p.Fset.Position(fd.Pos()).Filename == file {
+							work = append(work, fd)
+						}
+					}
+					if f.Name() != "VisitJSON" {
+						return true
+					}
+				} else {
+					return true
+				}
+				k++
+				key := fmt.Sprintf("asresponse:%s#%d", core.FuncName(d), k)
+				has := false
+				var look func(e ast.Expr, depth int)
+				look = func(e ast.Expr, depth int) {
+					if depth > 4 {
+						return
+					}
+					ast.Inspect(e, func(m ast.Node) bool {
+						switch x := m.(type) {
+						case *ast.CallExpr:
+							if g := core.CalleeOf(info, x); g != nil && g.Name() == "VisitAsResponse" {
+								has = true
+							}
+						case *ast.Ident:
+							if o := info.ObjectOf(x); o != nil {
+								if _, isSlice := o.Type().Underlying().(*types.Slice); isSlice {
+									for _, a := range ff.Assigns(o) {
+										if a.Rhs != nil && depth < 4 {
+											// only a variable all of whose (re)assignments keep the option counts:
+											// look at the first assignment that mentions the option
+											look(a.Rhs, depth+1)
+										}
+									}
+								}
+							}
+						}
+						return true
+					})
+				}
+				for _, a := range c.Args[1:] {
+					look(a, 0)
+				}
+				if has {
+					r.OK(key, p.Pos(c.Pos()), "validated as a response")
+				} else {
+					r.Bad(key, p.Pos(c.Pos()), fmt.Sprintf("%s validates a value of the response without VisitAsResponse(): a required write-only property is demanded of it and a write-only property that is present is accepted — the opposite of what a response may contain", core.FuncName(d)))
+				}
+				return true
+			})
+		}
+	})
 }
